@@ -110,6 +110,14 @@ def run_check(prop, tier, seed, replay=None):
             broken.append(("driver", "the model no longer builds against the regenerated facts: "
                            + _build_excerpt(info.log)))
 
+        # ---- failing-input search: the proof or the correspondence is broken but nothing fails yet ----
+        if replay is None and (ctx.drifts or broken) and not ctx.violations and hasattr(mod, "search") \
+                and ctx.driver is not None:
+            try:
+                mod.search(ctx)
+            except Exception as e:  # noqa: BLE001
+                ctx.notes.append("failing-input search ended with %s: %s" % (type(e).__name__, e))
+
         # ---- known findings ----------------------------------------------------------------
         known = common.load_known()
         mine = [k for k in known.get("findings", []) if k["property"] == prop]
